@@ -127,7 +127,10 @@ def main(argv=None):
     # lemmas decided by evaluating the real tables / code (finite)
     lemma_results = []
     if hasattr(prop, 'lemmas'):
-        for name, ok, detail in prop.lemmas():
+        for item in prop.lemmas():
+            name, ok, detail = item[:3]
+            observed = item[3] if len(item) > 3 else getattr(
+                prop, 'LEMMAS_ARE_OBSERVATIONS', True)
             n_obl += 1
             lemma_results.append({'lemma': name, 'holds': bool(ok),
                                   'detail': detail})
@@ -137,8 +140,10 @@ def main(argv=None):
                                                           0) + 1
             else:
                 violations.append({'name': pid + ':lemma:' + name,
+                                   'backend': 'evaluation / frame checker',
                                    'model': {}, 'replay': {
-                                       'status': 'reproduced',
+                                       'status': 'reproduced' if observed
+                                       else 'not-replayed',
                                        'observed': detail}})
 
     bounded = []
